@@ -159,6 +159,21 @@ class RungeKuttaIntegrator(TableauIntegrator, abc.ABC):
             self.__rhs_jac = None
         self.solver_dict_keep_keys = set(solver_dict_preserved.keys())
 
+    def __same_constants(self, constants):
+        """Whether `constants` are those the cached end slope was evaluated with"""
+        cached = getattr(self, "_RungeKuttaIntegrator__final_constants", None)
+        if cached is None or cached.keys() != constants.keys():
+            return False
+        for key, value in constants.items():
+            if cached[key] is value:
+                continue
+            try:
+                if not bool(D.ar_numpy.all(cached[key] == value)):
+                    return False
+            except Exception:
+                return False
+        return True
+
     def __call__(self, rhs, initial_time, initial_state, constants, timestep):
         self.solver_dict = {k:v for k,v in self.solver_dict.items() if k in self.solver_dict_keep_keys}
         self.initial_state = D.ar_numpy.copy(initial_state)
@@ -166,8 +181,10 @@ class RungeKuttaIntegrator(TableauIntegrator, abc.ABC):
         self.initial_rhs = None
         
         if self.final_rhs is not None and self.final_time is not None and self.final_state is not None \
-                and D.ar_numpy.all(initial_time == self.final_time) and D.ar_numpy.all(initial_state == self.final_state):
+                and D.ar_numpy.all(initial_time == self.final_time) and D.ar_numpy.all(initial_state == self.final_state) \
+                and self.__same_constants(constants):
             # the cached end slope may only be reused when this call starts where the last accepted step ended
+            # and evaluates the same equation (the constants are parameters of the right-hand side)
             self.initial_rhs = self.final_rhs
             if self.is_fsal:
                 self.stage_values[...,0] = self.final_rhs
@@ -239,6 +256,7 @@ class RungeKuttaIntegrator(TableauIntegrator, abc.ABC):
         self._requires_high_precision = False
         self.final_time = initial_time + self.dTime
         self.final_state = initial_state + self.dState
+        self.__final_constants = dict(constants)
 
         if not self.is_adaptive and D.ar_numpy.abs(timestep) > D.ar_numpy.abs(current_timestep):
             # a scheme without an embedded error estimate has nothing to base a longer step on: it keeps the requested step
